@@ -479,3 +479,53 @@ fn c11_tooling_step_k6() {
 fn c11_tooling_step_k3() {
     tooling_step_check(3);
 }
+
+/// The stub's contract on one *concrete* source (constant call sites): the real DFA never yields
+/// `Err` and its tokens are non-empty, ordered and inside the source. Symbolic sources beyond one
+/// byte do not finish; concrete ones run through symex deterministically, so longer irregular
+/// texts (very long literals, unterminated strings, control characters) can be covered this way.
+fn dfa_concrete_case(src: &'static str, max_tokens: usize) {
+    let mut raw = Tok::lexer(src);
+    let mut end = 0usize;
+    let mut steps = 0;
+    while steps <= max_tokens {
+        steps += 1;
+        match raw.next() {
+            | None => break,
+            | Some(Ok(tok)) => {
+                let span = raw.span();
+                assert!(span.start >= end && span.end > span.start && span.end <= src.len(), "raw tokens are non-empty, in order and inside the source");
+                end = span.end;
+                std::mem::forget(tok);
+            }
+            | Some(Err(_)) => assert!(false, "logos yielded Err: some text is matched by no rule"),
+        }
+    }
+    std::mem::forget(raw);
+}
+
+//@ id: c11_dfa_concrete_cases
+//@ property: C11
+//@ tier: quick
+//@ encodes: the logos-generated <Tok as Logos>::lex (real DFA, no stub) on concrete irregular sources
+//@ sym: which of 10 concrete sources (constant call sites chosen by the solver): 40-digit literals of either sign, a float with a huge exponent, an unterminated string, a lone quote, a backslash character literal, carriage return and vertical tab, a dash run ending in a terminator, a non-ASCII character, a long identifier
+//@ oracle: never Err; tokens non-empty, ordered, inside the source
+//@ bounds: concrete sources of <= 44 bytes; unwind 48
+//@ replay: playback
+#[kani::proof]
+#[kani::unwind(48)]
+fn c11_dfa_concrete_cases() {
+    let which: u8 = kani::any();
+    match which {
+        | 0 => dfa_concrete_case("9999999999999999999999999999999999999999", 2),
+        | 1 => dfa_concrete_case("-9999999999999999999999999999999999999999 x", 3),
+        | 2 => dfa_concrete_case("1.5e99999999", 2),
+        | 3 => dfa_concrete_case("\"unterminated", 14),
+        | 4 => dfa_concrete_case("'", 2),
+        | 5 => dfa_concrete_case("'\\'", 2),
+        | 6 => dfa_concrete_case("a\r\x0bb", 5),
+        | 7 => dfa_concrete_case("/- ----/ -/", 5),
+        | 8 => dfa_concrete_case("\u{3bb}\u{a0}x", 4),
+        | _ => dfa_concrete_case("a_very_long_identifier_with_many_characters", 2),
+    }
+}
